@@ -149,13 +149,19 @@ class A(Adapter):
         self._solutions: Dict[bytes, Optional[np.ndarray]] = {}
 
     def configs(self):
-        return [cfg("db", True, gen="db"), cfg("dummy", True, gen="dummy"), cfg("veryeasy", gen="veryeasy")]
+        return [cfg("db", True, gen="db"), cfg("dummy", True, gen="dummy"), cfg("veryeasy", gen="veryeasy"),
+                cfg("veryeasy_u8", True, gen="veryeasy_u8")]  # the same kind of database handed over as uint8 (0 = empty cell)
 
     def build(self, c):
         from jumanji.environments import Sudoku
         from jumanji.environments.logic.sudoku.generator import DummyGenerator, DatabaseGenerator
         if c["gen"] == "dummy":
             return Sudoku(generator=DummyGenerator())
+        if c["gen"] == "veryeasy_u8":
+            import os
+            import jumanji.environments.logic.sudoku as sd
+            path = os.path.join(os.path.dirname(sd.__file__), "data", "1000_very_easy_puzzles.npy")
+            return Sudoku(generator=DatabaseGenerator(np.load(path)[:40].astype(np.uint8)))
         if c["gen"] == "veryeasy":
             import os
             import jax.numpy as jnp
